@@ -29,6 +29,19 @@ CHECKS["C09"] = dict(engine="util", cat="translation_validation", tech="TLA+ ref
 CHECKS["C10"] = dict(engine="truth", cat="exploration", tech="TLA+ validity check (Term.tla, all assignments) by TLC on recorded histories of is_true / is_false answers with the per-backend truth caches as state",
   text="All Boolean terms of the exhaustive small-width stream are queried through claripy.is_true/is_false, the Bool methods and the Z3 backend, before and after building structurally related terms and after downsize(); every True answer, first-time or re-served from a cache, must hold (fail) under every assignment. At widths 8..64 a True answer is only refuted on sampled assignments. Solver-level is_true/is_false relative to constraints and extra constraints is part of every solver history (C11-C18 traces).",
   note="False answers carry no information and are always accepted.", ref="5 C10")
+VSA_TECH = "TLA+ strided-interval domain (SI.tla: Gamma, WF, soundness predicates over SMT-LIB operations on naturals) evaluated by TLC on recorded abstract operations (TraceSI.tla)"
+def vsa(pid, text, note):
+    CHECKS[pid] = dict(engine="vsa", cat="exploration", tech=VSA_TECH, text=text, note=note, ref="5 " + pid)
+vsa("C21", "Every transfer function (add, sub, mul, udiv, sdiv, mod, neg, not/and/or/xor, shifts by interval amounts, extensions, extract, concat, the ten comparisons), through both the BackendVSA entry point and the named method, on ALL ordered pairs of well-formed intervals of width 1..3 (operand set certified by TLC against WFSet), one level of closure under the operations, all unary and a seeded share of pairs at width 4, sampled member pairs at 8..64 bits (thorough): TLC checks gamma(result) contains op(x, y) for every member pair (division by zero and Reverse of non-constants exempt).",
+    "Exhaustive at width <= 3 over well-formed operands; directly constructed ill-formed triples are not judged. The pinned tree's many unsound cases are exact failing-input sets (findings/C21-exact.txt); seeded tiers draw only from operators that are sound there.")
+vsa("C22", "union / least_upper_bound / widen contain both operands, intersection contains the common members, and eval(n) / min / max (signed, unsigned) / cardinality / solution agree with the member set, over the same interval populations and triples at width <= 2.",
+    "As C21.")
+vsa("C23", "DiscreteStridedIntervalSet (incl. the collapse past a lowered cardinality limit) and region ValueSets: every operation contains every concrete result of its members (per region for value sets) and the queries agree with the members, at width <= 2 exhaustively and a seeded width-3 sample.",
+    "Unsupported operand combinations (TypeError / NotImplemented from claripy) are counted, not judged.")
+vsa("C24", "For terms over variables annotated with strided intervals, TLC evaluates the term (Term.tla) under every assignment drawn from the intervals and checks the value is in gamma(backends.vsa.convert(term)) (truth value in the BoolResult); SolverVSA eval / min / max / satisfiable against the over-approximation relation.",
+    "Depth-1 shapes over all well-formed pairs at width <= 2, sliced at width 3, plus a fixed term catalogue.")
+vsa("C25", "constraint_to_si(c) -> (sat, [(expr, bound)]): if some assignment satisfies c then sat must be True and under every satisfying assignment every expr lies in gamma(bound); all shapes x comparisons x constants at width <= 4, annotated variables, And/Or/Not combinations.",
+    "constraint_to_si exceptions are recorded, not judged.")
 SOLVER_TECH = "TLA+ abstract solver algebra (SolverAbs.tla) + trace validation by TLC (TraceSolver.tla) of recorded histories on the real frontends"
 SOLVER_NOTE = "Trusted: TLC, Term.tla semantics, Z3 inside claripy only as the system under test. Variables of width <= 3 so TLC enumerates every model; histories are seeded-random (length <= 10 + probe battery) over fixed constraint alphabets, REUSE_Z3_SOLVER on and off."
 def solver(pid, text, cat="model_checking", ref=None):
@@ -41,6 +54,12 @@ solver("C15", "merge (with and without ancestor), combine and split on solvers p
 solver("C16", "Tracked Solver / SolverCacheless / SolverComposite histories with unsat_core(): TLC checks empty core on satisfiable sets, every element a constraint that was added (or currently held), and unsatisfiability of the conjunction of the core by enumeration.")
 solver("C17", "Fault injection: z3.Solver.check returns unknown (timeout / resource limit / other) at the k-th check of a random operation; TLC requires a claripy error for the faulted call and validates every later answer of the solver and its branches against the unchanged model set.", cat="fault_enumeration")
 solver("C18", "Histories with in-process pickle round trips of every frontend class after arbitrary prefixes; the unpickled solver is a new id with the same model set in SolverAbs and every later answer of both copies is validated.")
+CHECKS["C26"] = dict(engine="values", cat="exploration", tech="TLC re-evaluates constraints and expression under a witness model with Term.tla at any width (TraceValues.tla); pinned FP / string values compared bit for bit; small-width solver histories validated against SolverAbs",
+  text="Every value returned by eval / batch_eval / min / max (before and after other queries, five frontend classes, widths 1..256) must be realised by a model: an independent cache-less query supplies a witness assignment which TLC does not trust but checks (all constraints hold, the expression evaluates to the value); a missing witness is value-not-real. FP (NaN, signed zeros, infinities, subnormals) and string (NUL, escape look-alikes, astral) variables pinned by constraints must come back bit-identical. Values served from caches after branch/add histories are validated through the solver traces.",
+  note="Witness search uses Z3 through claripy; soundness of an accepted value rests on TLC's evaluation only.", ref="5 C26")
+CHECKS["C20"] = dict(engine="threads", cat="model_checking", tech="TLC explores all interleavings of thread calls (Threads.tla), schedules replayed with a baton on real threads; every thread's recorded trace validated by TLC against SolverAbs (TraceThreads.tla)",
+  text="TLC enumerates every interleaving of 3 threads x 3 (thorough: 4) public calls and checks that a thread's abstract solver state depends on its own calls only and that Z3 contexts are private; a seeded sample (thorough: thousands) of the complete schedules is replayed on real threads with each call atomic, plus free-running groups of 2..16 threads under switch intervals 5 ms / 0.1 ms / 10 us. Each thread's trace (history + probe battery) must be a behaviour of SolverAbs for that thread's own history; a crashed or hung thread and a shared or changing Z3 context are violations.",
+  note="Below API-call granularity interleavings are sampled, not enumerated.", ref="5 C20")
 CHECKS["C19"] = dict(engine="gc", cat="model_checking", tech="PlusCal/TLA+ line-level model (GcGuard.tla) exhaustively checked by TLC; transition-cover replay on the real _enter_z3/_exit_z3/condom under a deterministic line-level scheduler; recorded traces validated by TLC against GcGuardAbs.tla",
   text="TLC explores every line-level interleaving of up to 3 threads with nested enter/exit scripts and both initial GC states and checks: GC disabled while a call is in flight, counter never negative, flag restored. Every edge of the dumped state graph is replayed on the real functions (lock and gc substituted at run time), the projected state and the enabled set are compared with the model after every step (bounded refinement check), and every recorded run is validated by TLC against the abstract spec, which alone produces verdicts; code that no longer follows the line-level model falls back to exhaustive exploration of the real code's interleavings.",
   note="Trusted: TLC, CPython line events as the grain of atomicity (one source line atomic), the scheduler. Bounds: <= 3 threads, nesting <= 2. SIGINT handling in condom is not modelled.", ref="5 C19")
@@ -74,6 +93,9 @@ def main():
             {"name": "truth", "path": "harness/eng_truth.py", "serves_properties": ["C10"], "kind_free_text": "truth-query histories -> TLC (TraceExpr.tla)"},
             {"name": "fp", "path": "harness/eng_fp.py", "serves_properties": ["C02"], "kind_free_text": "fold/solve events -> TLC (TraceFP.tla) against FP.tla"},
             {"name": "str", "path": "harness/eng_str.py", "serves_properties": ["C03"], "kind_free_text": "fold/solve/literal events -> TLC (TraceStr.tla) against Str.tla"},
+            {"name": "vsa", "path": "harness/eng_vsa.py", "serves_properties": ["C21", "C22", "C23", "C24", "C25"], "kind_free_text": "abstract-domain operations -> TLC (TraceSI.tla) against SI.tla"},
+            {"name": "values", "path": "harness/eng_values.py", "serves_properties": ["C26"], "kind_free_text": "returned values + witness models -> TLC (TraceValues.tla)"},
+            {"name": "threads", "path": "harness/eng_threads.py", "serves_properties": ["C20"], "kind_free_text": "Threads.tla schedules -> baton replay; per-thread traces -> TraceThreads.tla"},
             {"name": "gc", "path": "harness/eng_gc.py", "serves_properties": ["C19"], "kind_free_text": "TLC state graph of GcGuard.tla -> path cover replayed by harness/sched.py on the real code -> TraceGc.tla"},
             {"name": "solver", "path": "harness/eng_solver.py", "serves_properties": ["C11", "C12", "C13", "C14", "C15", "C16", "C17", "C18"], "kind_free_text": "solver histories on real frontends -> TLC (TraceSolver.tla) trace validation against SolverAbs.tla"},
         ],
